@@ -143,16 +143,32 @@ def forbidden_scan():
     return bad
 
 
+def ensure_makefile():
+    """Makefile from _CoqProject restricted to files that exist (a listed but missing file would stop coqdep for
+    every target); regenerated whenever that filtered project changes"""
+    lines = []
+    for line in open(os.path.join(COQ, "_CoqProject"), encoding="utf-8"):
+        t = line.strip()
+        if t.endswith(".v") and not t.startswith("-") and not os.path.exists(os.path.join(COQ, t)):
+            continue
+        lines.append(line if line.endswith("\n") else line + "\n")
+    text = "".join(lines)
+    gen = os.path.join(COQ, "_CoqProject.gen")
+    if os.path.exists(gen) and open(gen, encoding="utf-8").read() == text and os.path.exists(os.path.join(COQ, "Makefile")) \
+            and os.path.getmtime(os.path.join(COQ, "Makefile")) >= os.path.getmtime(gen):
+        return 0, ""
+    open(gen, "w", encoding="utf-8").write(text)
+    return sh("coq_makefile -f _CoqProject.gen -o Makefile", cwd=COQ, timeout=120)
+
+
 def coq_build(target_v, timeout=1500):
     """make the cone of target_v, then compile target_v itself with coqc to capture Print Assumptions.
     returns dict(ok, log, assumptions=[(theorem, [axioms])], closed=[theorems])"""
     res = {"ok": False, "log": "", "assumptions": {}, "cmd": ""}
-    if not os.path.exists(os.path.join(COQ, "Makefile")) or \
-            os.path.getmtime(os.path.join(COQ, "Makefile")) < os.path.getmtime(os.path.join(COQ, "_CoqProject")):
-        rc, out = sh("coq_makefile -f _CoqProject -o Makefile", cwd=COQ, timeout=120)
-        if rc != 0:
-            res["log"] = out
-            return res
+    rc, out = ensure_makefile()
+    if rc != 0:
+        res["log"] = out
+        return res
     vo = target_v[:-2] + ".vo"
     cone = coq_cone(target_v)
     deps = [f[:-2] + ".vo" for f in cone if f != target_v]
